@@ -5,6 +5,7 @@
 // 2014-12-04 Chen Gong <chen.sst@gmail.com>
 //
 
+#include <optional>
 #include <leveldb/db.h>
 #include <leveldb/write_batch.h>
 #include <rime/common.h>
@@ -50,6 +51,9 @@ struct LevelDbCursor {
 struct LevelDbWrapper {
   leveldb::DB* ptr = nullptr;
   leveldb::WriteBatch batch;
+  // what the pending batch will do to each key it touches, so that a
+  // transaction reads its own writes; nullopt stands for a deletion.
+  map<string, std::optional<string>> pending;
 
   leveldb::Status Open(const path& file_path, bool readonly) {
     leveldb::Options options;
@@ -65,6 +69,13 @@ struct LevelDbWrapper {
   LevelDbCursor* CreateCursor() { return new LevelDbCursor(ptr); }
 
   bool Fetch(const string& key, string* value) {
+    auto it = pending.find(key);
+    if (it != pending.end()) {
+      if (!it->second)
+        return false;
+      *value = *it->second;
+      return true;
+    }
     auto status = ptr->Get(leveldb::ReadOptions(), key, value);
     return status.ok();
   }
@@ -72,6 +83,7 @@ struct LevelDbWrapper {
   bool Update(const string& key, const string& value, bool write_batch) {
     if (write_batch) {
       batch.Put(key, value);
+      pending[key] = value;
       return true;
     }
     auto status = ptr->Put(leveldb::WriteOptions(), key, value);
@@ -81,13 +93,17 @@ struct LevelDbWrapper {
   bool Erase(const string& key, bool write_batch) {
     if (write_batch) {
       batch.Delete(key);
+      pending[key] = std::nullopt;
       return true;
     }
     auto status = ptr->Delete(leveldb::WriteOptions(), key);
     return status.ok();
   }
 
-  void ClearBatch() { batch.Clear(); }
+  void ClearBatch() {
+    batch.Clear();
+    pending.clear();
+  }
 
   bool CommitBatch() {
     auto status = ptr->Write(leveldb::WriteOptions(), &batch);
